@@ -27,7 +27,11 @@ from __future__ import annotations
 
 import json
 import math
+import os
 import warnings
+
+os.environ.setdefault("OMP_NUM_THREADS", "1")        # tiny matrices: BLAS threads only burn CPU
+os.environ.setdefault("OPENBLAS_NUM_THREADS", "1")
 from fractions import Fraction
 
 import numpy as np
